@@ -137,6 +137,14 @@ def match_schemas(w_schema, r_schema, named_schemas):
         elif w_type not in AVRO_TYPES and r_type in NAMED_TYPES:
             if match_types(w_type, r_schema["name"], named_schemas):
                 return r_schema["name"]
+        elif w_type in NAMED_TYPES and r_type not in AVRO_TYPES:
+            # The writer defines the type here and the reader refers to it by
+            # name: resolve against the reader's definition of that name
+            r_definition = named_schemas["reader"].get(r_type)
+            if r_definition is not None and match_types(
+                w_schema, r_definition, named_schemas
+            ):
+                return r_definition
         elif match_types(w_type, r_type, named_schemas):
             return r_schema
         raise SchemaResolutionError(error_msg)
